@@ -22,6 +22,7 @@ import sys
 import tempfile
 
 from . import tlc, realnet as R
+from . import dsref
 from .common import Verdict, main_wrapper, Machinery, seed
 
 ae_mod, exceptions = R.applicationentity, R.exceptions
@@ -48,7 +49,7 @@ def fit_dataset(rng, ts, f, k, inst=None):
         ds.ProcedureCodeSequence = pydicom.Sequence([])
         del ds.ProcedureCodeSequence
         ds.PatientID = 'I' * (1 + base % 8)
-        ln = len(dsutils.encode(ds, ts.is_implicit_VR, ts.is_little_endian))
+        ln = len(dsref.encode(ds, ts.is_implicit_VR, ts.is_little_endian))
         want = k * f
         while want < ln:
             want += f
@@ -56,7 +57,7 @@ def fit_dataset(rng, ts, f, k, inst=None):
         if extra % 2 == 0:
             ds.PixelData = bytes(rng.getrandbits(8) for _ in range(2 + extra))
             ds['PixelData'].VR = 'OW'
-            if len(dsutils.encode(ds, ts.is_implicit_VR, ts.is_little_endian)) % f == 0:
+            if len(dsref.encode(ds, ts.is_implicit_VR, ts.is_little_endian)) % f == 0:
                 return ds
     return None
 
@@ -130,7 +131,7 @@ def listing(d):
 def one_store(net_kind, srv, handler, cl, ds, ts, from_file, workdir, rng, dir_mode, storage_dir, other=None):
     """other: a second requesting entity (another transfer syntax) whose association is opened after this one and kept
     open while the store is done."""
-    data = dsutils.encode(ds, ts.is_implicit_VR, ts.is_little_endian)
+    data = dsref.encode(ds, ts.is_implicit_VR, ts.is_little_endian)
     src = ds
     if from_file:
         path = os.path.join(workdir, 'src_%d.dcm' % rng.randint(0, 10 ** 9))
@@ -227,13 +228,13 @@ def several_stores_one_association(ts, datasets, rng, mem, workdir):
         link = net.links[0] if net.links else {'log': []}
         lens = [sum(4 + 1 + len(x['val']) for x in p['pdvs']) for p in R.pdus_of(link['log'], 'R') if p['k'] == 'PD']
     for k, ds in enumerate(datasets):
-        data = dsutils.encode(ds, ts.is_implicit_VR, ts.is_little_endian)
+        data = dsref.encode(ds, ts.is_implicit_VR, ts.is_little_endian)
         if mem:
             g = log[k] if k < len(log) else None
             readable = False
             if g:
                 try:
-                    back = dsutils.decode(g['bytes'], ts.is_implicit_VR, ts.is_little_endian)
+                    back = dsref.decode(g['bytes'], ts.is_implicit_VR, ts.is_little_endian)
                     readable = str(back.SOPInstanceUID) == str(ds.SOPInstanceUID)
                 except Exception:      # noqa
                     readable = False
@@ -309,7 +310,7 @@ def concurrent_stores(ts, rng, nclients=3, per_client=4):
                 continue
             ds, st = item
             inst = str(ds.SOPInstanceUID)
-            data = dsutils.encode(ds, ts.is_implicit_VR, ts.is_little_endian)
+            data = dsref.encode(ds, ts.is_implicit_VR, ts.is_little_endian)
             g = seen.get(inst)
             out.append({'sent': {'d': tok(data), 'cls': CT, 'inst': inst}, 'tsNegotiated': str(ts), 'handlerStatus': g['status'] if g else -1,
                         'scuStatus': st, 'maxA': 16384, 'maxB': 16384, 'dirMode': False, 'pdataA2B': [],
